@@ -94,7 +94,7 @@ def make_adapter(casbin, initial, fail_after=None, is_async=False):
     class Rec(*bases):
         def __init__(self):
             self.store = {k: [list(r) for r in v] for k, v in initial.items()}
-            self.log = []
+            self.log = _ALog()
             self.fail_after = fail_after
 
         def load_policy(self, model):
@@ -206,6 +206,17 @@ def make_adapter(casbin, initial, fail_after=None, is_async=False):
     return Rec()
 
 
+class _ALog(list):
+    """the adapter's call log; also feeds the shared event sequence (order between adapter calls and notifications)"""
+
+    events = None
+
+    def append(self, x):
+        super().append(x)
+        if self.events is not None:
+            self.events.append("a:" + x)
+
+
 class _WLog(list):
     """the watcher's call log; when `observe` is set, every notification also records what the adapter's store and the
     enforcer's memory hold at that very moment (the property: notified AFTER the in-memory and adapter changes)"""
@@ -216,8 +227,12 @@ class _WLog(list):
         super().__init__()
         self.snaps = []
 
+    events = None
+
     def append(self, x):
         super().append(x)
+        if self.events is not None:
+            self.events.append("w:" + x)
         if self.observe is not None:
             self.snaps.append(self.observe())
 
@@ -368,6 +383,12 @@ def build_enforcer(cfg, fail_after=None):
             return {"pol": pol, "store": {k: [list(r) for r in ad.store.get(k, [])] for k in ("p", "g", "g2")} if ad else None}
 
         w.log.observe = observe
+    events = []
+    if ad is not None:
+        ad.log.events = events
+    if w is not None:
+        w.log.events = events
+    e._verif_events = events
     if cfg.matchfn == "regex":
         from casbin.util import regex_match_func
 
@@ -655,6 +676,7 @@ def run_history(cfg, hist, queries, fresh_oracle=True, extra=None):
         a0 = len(ad.log) if ad else 0
         w0 = len(w.log) if w else 0
         ws0 = len(w.log.snaps) if w else 0
+        ev0 = len(e._verif_events)
         try:
             ret = res_str(impl_call(e, op, cfg.is_async))
         except Exception as ex:  # noqa
@@ -663,6 +685,7 @@ def run_history(cfg, hist, queries, fresh_oracle=True, extra=None):
         rec["acalls"] = list(ad.log[a0:]) if ad else []
         rec["wcalls"] = list(w.log[w0:]) if w else []
         rec["wsnaps"] = list(w.log.snaps[ws0:]) if w else []
+        rec["events"] = list(e._verif_events[ev0:])
         pol = {"p": [list(r) for r in e.get_policy()], "g": [list(r) for r in e.get_named_grouping_policy("g")]}
         pol["g2"] = [list(r) for r in e.get_named_grouping_policy("g2")] if cfg.shape == "res" else []
         rec["pol"] = pol
@@ -720,13 +743,14 @@ def compare_history(res, cfg, hist, impl, answers, idx, queries, judge):
         parts = answers[a:b]
         if any(p == "bad-op" for p in parts):
             raise common.Infra(f"driver answered bad-op for {op}")
-        rets, acalls, wcalls = ([] if parts else ["-"]), [], []
+        rets, acalls, wcalls, events = ([] if parts else ["-"]), [], [], []
         for p in parts:
             body = p[len("model="):]
-            r, ac, wc = body.split("#")
+            r, ac, wc, ev = body.split("#")
             rets.append(r)
             acalls += [] if ac == "~" else ac.split(",")
             wcalls += [] if wc == "~" else wc.split(",")
+            events += [] if ev == "~" else ev.split(",")
         mret = combine_model(op, rets)
         obs = parse_obs(answers[b])
         qa = [parse_ms(x) for x in answers[c : c + len(queries)]]
@@ -734,7 +758,7 @@ def compare_history(res, cfg, hist, impl, answers, idx, queries, judge):
         res.count("op:" + op[0])
         res.count("ret:" + (rec["ret"] if rec["ret"] in ("T", "F", "-") or rec["ret"].startswith("!") else "list"))
         case = {"config": {"shape": cfg.shape, "text": cfg.text, "matchfn": cfg.matchfn, "adapter": cfg.adapter, "watcher": cfg.watcher, "async": cfg.is_async, "late": cfg.late, "initial": cfg.initial}, "history": [list(o) for o in hist[: i + 1]], "step": i}
-        model = {"ret": mret, "acalls": acalls, "wcalls": wcalls, "obs": obs, "answers": [m for m, _ in qa], "fresh": [s for _, s in qa]}
+        model = {"ret": mret, "acalls": acalls, "wcalls": wcalls, "events": events, "obs": obs, "answers": [m for m, _ in qa], "fresh": [s for _, s in qa]}
         # ---- the tie: implementation vs model
         diffs = []
         if rec["ret"] != mret:
@@ -746,6 +770,8 @@ def compare_history(res, cfg, hist, impl, answers, idx, queries, judge):
             diffs.append(("adapter calls", rec["acalls"], acalls))
         if cfg.watcher and rec["wcalls"] != wcalls:
             diffs.append(("notifications", rec["wcalls"], wcalls))
+        if cfg.adapter and cfg.watcher and not diffs and rec["events"] != events and parts:
+            diffs.append(("order of adapter calls and notifications", rec["events"], events))
         for q, ia, (ma, _) in zip(queries, rec["answers"], qa):
             if ia != ma:
                 diffs.append((f"query {q}", ia, ma))
